@@ -375,6 +375,77 @@ def rule_ident(ctx, rep):
                     r.ok("rule %s|%s(token text)" % (rule, c.callee.split("::")[-2] + "::from"), loc_str(b.f, c.loc))
 
 
+def rule_vars(ctx, rep):
+    r = rep.rule("R-C01-vars", "every match on VarDeclarations (the carrier of a VAR block's class and qualifier through flatten/drain/with) has one "
+                               "explicit arm per variant: no wildcard or catch-all binding arm can swallow a block kind", floor=4, floor_what="matches on VarDeclarations")
+    from vlib.mir import switch_info
+    VD = "ironplc_parser::vars::VarDeclarations"
+    adt = ctx.facts.adts.get(VD)
+    if not adt:
+        rep.error("R-C01-vars", "enum VarDeclarations not found")
+        return
+    names = [v["name"] for v in adt["variants"]]
+    n = {}
+    for b in sorted(ctx.prog.bodies.values(), key=lambda x: x.id):
+        if b.f["crate"] != "ironplc_parser":
+            continue
+        for i in sorted(b.reachable(0)):
+            si = switch_info(b, i)
+            if not (si and si["kind"] == "disc" and si.get("adt") == VD):
+                continue
+            # skip drop-elaboration re-tests of a discriminant already matched above
+            if any(d != i and (switch_info(b, d) or {}).get("adt") == VD and (switch_info(b, d) or {}).get("subject") == si["subject"] for d in b.dominators().get(i, set())):
+                continue
+            fn = norm(b.id)
+            k = n[fn] = n.get(fn, 0) + 1
+            inst = "%s|match#%d" % (fn.replace("ironplc_parser::", ""), k)
+            where = "%s:%d" % (b.f["file"], b.f["line"])
+            shared = {succ: labs for succ, labs in si["edges"].items() if len(labs) > 1 or labs == ["otherwise"]}
+            handled = {l for labs in si["edges"].values() for l in labs}
+            missing = [x for x in names if x not in handled]
+            if shared or missing:
+                what = sorted({l for labs in shared.values() for l in labs} | set(missing))
+                r.finding(inst + "|catch-all:" + ",".join(what), where, "variants %s are handled by a shared / wildcard arm: a block kind can pass through without its class or qualifier being applied" % what)
+            else:
+                r.ok(inst, where)
+
+
+COLLIDE_EXEMPT = {
+    ("STANDARD_FUNCTION_BLOCK_NAME", "END_VAR"): "deliberate never-matching placeholder (`TODO this should be a list of standard function block names`): "
+                                                  "the rule is meant to be unreachable until that list exists",
+}
+
+
+def rule_collide(ctx, rep, g):
+    r = rep.rule("R-C01-collide", "no keyword token literal equals (ignoring case) a word the grammar expects as an Identifier token via id_eq/dt_sep: "
+                                  "logos prefers the dedicated token, which would make that grammar alternative unreachable", floor=20, floor_what="textual keywords of the grammar")
+    from rules.c08 import parse_attr
+    a = ctx.facts.astattrs.get("ironplc_parser::token::TokenType")
+    tokens = {}
+    for vname, v in a["variants"].items():
+        for at in v["attrs"]:
+            p = parse_attr(at)
+            if p and p[0] == "token" and any(c.isalpha() for c in p[1]):
+                tokens[p[1].upper()] = vname
+    words = {}
+
+    def f(e, seq, rule):
+        t = g.terminal(e.prim)
+        if t and t[0] in ("id_eq", "dt_sep"):
+            words.setdefault(t[1].upper(), (rule, e.line))
+    for rl in g.rules.values():
+        g.walk_elems(rl.expr, f, rl.name)
+    for w, (rule, line) in sorted(words.items()):
+        inst = "textual keyword %s" % w
+        where = "parser/src/parser.rs:%d" % line
+        if w in tokens and (rule, w) in COLLIDE_EXEMPT:
+            r.justified(inst, COLLIDE_EXEMPT[(rule, w)], where)
+        elif w in tokens:
+            r.finding(inst + "|collides with TokenType::%s" % tokens[w], where, "`%s` lexes as TokenType::%s, never as Identifier: %s(\"%s\") in rule %s can no longer match" % (w, tokens[w], "id_eq/dt_sep", w, rule))
+        else:
+            r.ok(inst, where)
+
+
 def run(ctx, rep):
     rep.not_decided += ["that names/kinds/nesting of the returned tree equal the source (value-level)", "that every Annex B production is implemented",
                         "source order of declarations", "anything about inputs the grammar rejects"]
@@ -388,6 +459,8 @@ def run(ctx, rep):
     rule_label(ctx, rep, g)
     rule_sep(ctx, rep, g)
     rule_ident(ctx, rep)
+    rule_vars(ctx, rep)
+    rule_collide(ctx, rep, g)
     try:
         from rules import c01_consume
         c01_consume.run(ctx, rep, g)
